@@ -16,7 +16,9 @@ META = dict(
                "override mask and any hook functions, and lifted to any interleaving (C10_concurrent). The models are tied "
                "to /repo on every run: 1-6 concurrent kiq() calls and 1-6 concurrent receiver.callback() calls with 0-3 "
                "recording middlewares (random masks, sync/async, message-replacing, instance-attribute hooks, hooks inherited from "
-               "base classes / mixins / re-overridden by a subclass, two instances of one class, hooks that are plain "
+               "base classes / mixins / re-overridden by a subclass, two instances of one class, distinct instances that compare "
+               "equal - @dataclass middlewares, hand-written / always-true / raising __eq__, unhashable, __bool__ false, "
+               "__len__ 0 - registered in one or in several add_middlewares / with_middlewares calls, hooks that are plain "
                "functions returning a Future / Task / object with __await__), a quarter of the send cases being 2-4 consecutive "
                "sends on ONE kicker object re-pointed with with_broker / with_labels or whose broker gets more middlewares in "
                "between (each send compared with kiq over the stack its broker has at that send), a fifth of the receive cases "
